@@ -112,6 +112,21 @@ PROPS["C10"] = dict(
         job("unit-random", "^TestRandomUnit$", (2, 8), (10000, 100000), (600, 3000), pkg="c10h"),
     ],
 )
+PROPS["C02"] = dict(
+    pkg="c02", level="exploration",
+    technique="model-based differential testing: rapid-generated rule sets constructed around the example, boundary probes (on / one step inside / one step outside), independent clause-by-clause reference evaluator (math/big, regexp, two-sided format recognisers)",
+    level_text=("Bounded exploration of (rule set, probe) pairs on one scalar node (at the root, inside an array, inside an object): Validate is compared with a reference evaluator written from the rule "
+                "definitions. Probes are generated on, just inside and just outside every bound; enum/const near-misses; regex matches and single-edit non-matches from the grammar tree; two-sided "
+                "format corpora. Sampled."),
+    level_note="trusted: reference evaluator harness/ref/scalar.go; formats judged only inside the uncontroversial positive/negative classes; byte-vs-rune length disagreements and 1.0-style numerals not judged",
+    rule=("rule sets: min/max (+exclusive flags true/false/absent, listed before or after the bound), precision (+decimal), minLength/maxLength, regex from a small RE2 grammar (anchored or not), "
+          "enum over mixed kinds incl. pairs differing only in kind, const true/false, type names incl. date/datetime/email/uri/uuid, nullable true/false; numbers up to 25 digits; "
+          "probes: bound, bound +- 1 unit in the last place, bound +- 10^-k, exponent spellings, lengths b-1/b/b+1 through escapes, format positives/negatives, null and one value of every kind. "
+          "non-trivial = probe within one step of a bound, enum/const near-miss or re-spelling, format-class sample, regex single edit / unanchored prefix, or null under nullable with another rule; "
+          "distinct by (schema text, probe text)"),
+    assumptions=["reference evaluator is right", "rule sets rejected by Check are discarded and counted (rate reported in labels)"],
+    jobs=[job("scalar", "^TestScalarRules$", (4, 16), (2500, 30000), (600, 3000))],
+)
 
 _UNBUILT = "check under construction in this session (see DESIGN.md section 5 for the planned design)"
 NOT_APPLICABLE = [dict(property_id="C%02d" % i, reason=_UNBUILT) for i in range(1, 20) if "C%02d" % i not in PROPS]
